@@ -238,6 +238,10 @@ func chunkRange(req *http.Request) (start, end int64, _ error) {
 		}
 	}
 
+	if rangeOK && start == 0 && end == 0 && req.ContentLength == 1 {
+		// "0-0" is how a single byte at offset zero is rendered too.
+		end = 1
+	}
 	if rangeOK && req.ContentLength >= 0 {
 		rangeLength := end - start
 		if rangeLength != req.ContentLength {
